@@ -162,7 +162,7 @@ theorem prefix_take_append {pfx s : Bytes} (x : Bytes) (n : Nat) (h : pfx <+: s)
     (DES) row and `H` begins with two DES salt characters, then `r` is the first match for `H` too -/
 theorem redispatch (tbl : List HashEntry) (hT : C18.TableOk tbl = true) (s H : Bytes) (r : HashEntry)
     (hs : getHashFn tbl s = some r)
-    (hH : (r.pfx ≠ [] ∧ r.pfx <+: H) ∨ (r.pfx = [] ∧ s ≠ [] ∧ isDesSaltChar (cat H 0) = true ∧ isDesSaltChar (cat H 1) = true ∧ H ≠ [])) :
+    (hH : (r.pfx ≠ [] ∧ r.pfx <+: H) ∨ (r.pfx = [] ∧ isDesSaltChar (cat H 0) = true ∧ isDesSaltChar (cat H 1) = true ∧ H ≠ [])) :
     getHashFn tbl H = some r := by
   simp only [C18.TableOk, Bool.and_eq_true, List.all_eq_true] at hT
   obtain ⟨⟨hpf, hdes⟩, _⟩ := hT
@@ -176,7 +176,7 @@ theorem redispatch (tbl : List HashEntry) (hT : C18.TableOk tbl = true) (s H : B
   have rlen : r.plen = r.pfx.length := by simpa using hlen r rmem
   refine ⟨?_, as, bs, htbl, ?_⟩
   · -- r matches H
-    rcases hH with ⟨hne, hpre⟩ | ⟨he, _, d0, d1, hHne⟩
+    rcases hH with ⟨hne, hpre⟩ | ⟨he, d0, d1, hHne⟩
     · unfold HashEntry.matches
       have : 0 < r.pfx.length := List.length_pos_iff.mpr hne
       rw [if_pos (by omega), rlen, if_pos (Nat.le_refl _), List.take_length]
@@ -191,7 +191,7 @@ theorem redispatch (tbl : List HashEntry) (hT : C18.TableOk tbl = true) (s H : B
     apply Decidable.byContradiction
     intro hxm'
     have hxm : x.matches H = true := by simpa using hxm'
-    rcases hH with ⟨hne, hpre⟩ | ⟨he, hsne, d0, d1, hHne⟩
+    rcases hH with ⟨hne, hpre⟩ | ⟨he, d0, d1, hHne⟩
     · -- tagged row
       by_cases hxe : x.pfx = []
       · -- an untagged row cannot match something that begins with a tag
@@ -280,7 +280,7 @@ theorem C01_roundtrip_row (cfg : Config) (hT : C18.TableOk cfg.table = true) (D 
     intro salt rest he hH hsne
     apply redispatch cfg.table hT s H r hr
     right
-    refine ⟨he, hsne, ?_, ?_, ?_⟩ <;> rw [hH] <;> simp [cat, isDes_a64']
+    refine ⟨he, ?_, ?_, ?_⟩ <;> rw [hH] <;> simp [cat, isDes_a64']
   have sne : r.pfx = [] → s ≠ [] := by
     intro he hs; subst hs
     cases hc : r.crypt <;> rw [hc] at h rtag <;> simp only [cryptMethod] at h
